@@ -292,6 +292,154 @@ theorem painted_from_grid (d : DrawIn) (segs : List Segment) (h : segments d = .
             obtain ⟨g, sd, w, cl⟩ := addVertical_spec d _ _ s hc
             exact ⟨w, cl, c.2.1, c.2.2, Or.inl ⟨sd, g⟩⟩
 
+/-- `add_horizontal` skips a line silently (`return` without a segment) only for a split-cell edge, a
+border of width 0 or a transparent one. -/
+theorem addHorizontal_none (d : DrawIn) (x y : Nat) (h : addHorizontal d x y = .ok none) :
+    (y = 0 ∧ d.skipTop = true) ∨ (y = gridHeight d ∧ d.skipBottom = true) ∨
+    ∃ e, gridAt d.horizontal (rowNumber d y true) x = .ok e ∧ (e.border.width = 0 ∨ e.border.color = 0) := by
+  unfold addHorizontal at h
+  simp only [bind, Except.bind, pure, Except.pure] at h
+  split at h
+  · rename_i h1; exact Or.inl h1
+  · split at h
+    · rename_i _ h2; exact Or.inr (Or.inl h2)
+    · split at h
+      · cases h
+      · rename_i e he
+        split at h
+        · rename_i hv; exact Or.inr (Or.inr ⟨e, he, hv⟩)
+        · exfalso
+          repeat' (split at h)
+          all_goals (cases h)
+
+theorem addVertical_none (d : DrawIn) (x y : Nat) (h : addVertical d x y = .ok none) :
+    ∃ e, gridAt d.vertical (rowNumber d y false) x = .ok e ∧ (e.border.width = 0 ∨ e.border.color = 0) := by
+  unfold addVertical at h
+  simp only [bind, Except.bind, pure, Except.pure] at h
+  split at h
+  · cases h
+  · rename_i e he
+    split at h
+    · rename_i hv; exact ⟨e, he, hv⟩
+    · exfalso
+      repeat' (split at h)
+      all_goals (cases h)
+
+
+private theorem fold_acc_sub (d : DrawIn) (calls : List (Bool × Nat × Nat)) (acc segs : List Segment)
+    (h : calls.foldl (segStep d) (.ok acc) = .ok segs) : ∀ a ∈ acc, a ∈ segs := by
+  induction calls generalizing acc with
+  | nil =>
+    simp only [List.foldl_nil] at h
+    injection h with h; subst h; exact fun a ha => ha
+  | cons c cs ih =>
+    simp only [List.foldl_cons] at h
+    cases hstep : (if c.1 then addHorizontal d c.2.1 c.2.2 else addVertical d c.2.1 c.2.2) with
+    | error e =>
+      have : segStep d (.ok acc) c = .error e := by simp [segStep, hstep]
+      rw [this, fold_err] at h; cases h
+    | ok r =>
+      cases r with
+      | none =>
+        have : segStep d (.ok acc) c = .ok acc := by simp [segStep, hstep]
+        rw [this] at h; exact ih acc h
+      | some s' =>
+        have : segStep d (.ok acc) c = .ok (acc ++ [s']) := by simp [segStep, hstep]
+        rw [this] at h
+        exact fun a ha => ih _ h a (List.mem_append_left _ ha)
+
+private theorem fold_collects (d : DrawIn) (calls : List (Bool × Nat × Nat)) (acc segs : List Segment)
+    (h : calls.foldl (segStep d) (.ok acc) = .ok segs) (c : Bool × Nat × Nat) (hc : c ∈ calls) :
+    ∃ r, (if c.1 then addHorizontal d c.2.1 c.2.2 else addVertical d c.2.1 c.2.2) = .ok r ∧
+      ∀ s, r = some s → s ∈ segs := by
+  induction calls generalizing acc with
+  | nil => cases hc
+  | cons c0 cs ih =>
+    simp only [List.foldl_cons] at h
+    cases hstep : (if c0.1 then addHorizontal d c0.2.1 c0.2.2 else addVertical d c0.2.1 c0.2.2) with
+    | error e =>
+      have : segStep d (.ok acc) c0 = .error e := by simp [segStep, hstep]
+      rw [this, fold_err] at h; cases h
+    | ok r =>
+      have hnext : ∃ acc', segStep d (.ok acc) c0 = .ok acc' ∧ ∀ s, r = some s → s ∈ acc' := by
+        cases r with
+        | none => exact ⟨acc, by simp [segStep, hstep], fun s hs => by cases hs⟩
+        | some s' =>
+          refine ⟨acc ++ [s'], by simp [segStep, hstep], fun s hs => ?_⟩
+          injection hs with hs; subst hs; simp
+      obtain ⟨acc', hacc', hin⟩ := hnext
+      rw [hacc'] at h
+      rcases List.mem_cons.mp hc with rfl | hc'
+      · exact ⟨r, hstep, fun s hs => fold_acc_sub d cs acc' segs h s (hin s hs)⟩
+      · exact ih acc' h hc'
+
+private theorem mem_callOrder_h (gw gh x y : Nat) (hx : x < gw) (hy : y ≤ gh) :
+    (true, x, y) ∈ callOrder gw gh := by
+  unfold callOrder
+  cases y with
+  | zero =>
+    apply List.mem_append_left
+    simp only [List.mem_map, List.mem_range]
+    exact ⟨x, hx, rfl⟩
+  | succ y =>
+    apply List.mem_append_right
+    simp only [List.mem_flatMap, List.mem_range]
+    refine ⟨y, by omega, ?_⟩
+    apply List.mem_cons_of_mem
+    simp only [List.mem_flatMap, List.mem_range]
+    exact ⟨x, hx, by simp⟩
+
+/-- **visible_line_is_painted.**  When `draw_collapsed_borders` succeeds, every horizontal grid line
+`y ≤ grid_height` of the fragment over every column `x < grid_width` is either painted — a segment on
+that side carrying exactly the grid entry `row_number(y)` selects — or left out for one of exactly three
+reasons: it is the top line of a fragment whose first row is cut (`skip_cell_border_top`), the bottom
+line of one whose last row is cut (`skip_cell_border_bottom`), or its border has width 0 or is
+transparent.  (The clause the oracles "the outer lines of a repeated header / footer are never
+skipped" and "the outer body lines are left open only where a row is cut" sample.) -/
+theorem visible_line_is_painted (d : DrawIn) (segs : List Segment) (h : segments d = .ok segs)
+    (hne : d.rowHeights ≠ [] ∧ d.colWidths ≠ []) (x y : Nat) (hx : x < gridWidth d) (hy : y ≤ gridHeight d) :
+    (y = 0 ∧ d.skipTop = true) ∨ (y = gridHeight d ∧ d.skipBottom = true) ∨
+    (∃ e, gridAt d.horizontal (rowNumber d y true) x = .ok e ∧ (e.border.width = 0 ∨ e.border.color = 0)) ∨
+    (∃ s ∈ segs, s.side = .top ∧
+      gridAt d.horizontal (rowNumber d y true) x = .ok ⟨s.score, ⟨s.style, s.width, s.color⟩⟩) := by
+  unfold segments at h
+  have hemp : ¬ (d.rowHeights.isEmpty ∨ d.colWidths.isEmpty) := by
+    intro hc
+    rcases hc with hc | hc
+    · exact hne.1 (List.isEmpty_iff.mp hc)
+    · exact hne.2 (List.isEmpty_iff.mp hc)
+  rw [if_neg (by simpa using hemp)] at h
+  split at h
+  · cases h
+  · split at h
+    · cases h
+    · rename_i raw hraw
+      injection h with h
+      subst h
+      unfold rawSegments at hraw
+      obtain ⟨r, hr, hin⟩ := fold_collects d _ [] raw hraw (true, x, y) (mem_callOrder_h _ _ x y hx hy)
+      simp only [if_true] at hr
+      cases r with
+      | none =>
+        rcases addHorizontal_none d x y hr with h1 | h2 | h3
+        · exact Or.inl h1
+        · exact Or.inr (Or.inl h2)
+        · exact Or.inr (Or.inr (Or.inl h3))
+      | some s =>
+        obtain ⟨g, sd, _, _⟩ := addHorizontal_spec d x y s hr
+        exact Or.inr (Or.inr (Or.inr ⟨s, (sort_perm raw).mem_iff.mpr (hin s rfl), sd, g⟩))
+
+private def exLine (skipTop : Bool) : DrawIn :=
+  let e0 : Edge := weakNull
+  let red : Edge := ⟨⟨0, 4, styleRank .solid⟩, ⟨.solid, 4, 1⟩⟩
+  ⟨[10], [0], [20], [0], 0, 0, 0, skipTop, false, [[e0, e0]], [[red], [red]]⟩
+
+/-- Non-vacuity of `visible_line_is_painted`: one row, one column, 4px lines above and below: both are
+painted (y = 0 and y = 10); with `skip_cell_border_top` only the lower one. -/
+example : (segments (exLine false)).toOption.map (·.map (fun s => (s.width, s.y))) = some [(4, 0), (4, 10)] ∧
+    (segments (exLine true)).toOption.map (·.map (fun s => (s.width, s.y))) = some [(4, 10)] := by
+  constructor <;> decide +kernel
+
 /-- Non-vacuity: a 2-row fragment with a repeated 1-row header that continues a table whose first
 three body rows were shown before (`skipped_rows = 4`): its lines 0, 1 are the header's, line 2 is
 grid line 5. -/
